@@ -6,8 +6,9 @@ A header is treated as the list of its space-separated words (`str.split(" ")`: 
 kept).  The Python functions search the *characters* for `" OS="`, `" GN="`, `" PE="`; a match
 is exactly a word at position ≥ 1 that starts with the key, so the `parse_*` functions are
 written on the word list: "the first word after the identifier that starts with the key".
-That the two readings agree on real strings is validated by the correspondence of
-`harness/props/C19.py` (every generated header goes through both), not proved.
+The CHARACTER-level functions `parse*Char` at the end of this file mirror the Python expressions
+literally (`str.split(" OS=")`, `in`, `[1]`, `" ".join`); the driver op "header" runs those, and
+`Proofs/C19Char.lean` proves that the two readings agree on every string.
 
   parse_until_first_space   word 0
   parse_uniprot_id          field 1 of word 0 split at '|' if it contains '|', else word 0
@@ -348,5 +349,85 @@ def annotationColumns (d : Dict) (proteinIds : List Char) : List Char × List Ch
   let genes := distinct (found.filterMap (·.geneName))
   let headers := distinct (found.map (·.header))
   (joinOn ';' names, joinOn ';' genes, joinOn ';' headers)
+
+/-! ### CHARACTER-level model of the header parsers
+
+The functions below mirror the Python expressions of `protein_annotation.py` literally, on the
+characters of the header: `str.split(sep)` with a (multi-character) separator, `sep in s`,
+`[0]` / `[1]` / `[2]`, `[1:]`, `" ".join(...)`, `str.count`.  They do not mention words.
+`Proofs/C19Char.lean` proves that they equal the word-level functions above on EVERY string
+(`annotateChar_eq_annotate`), so the word-level theorems carry over. -/
+
+/-- prepend a character to the first field (the field being read) -/
+def consHead (c : Char) : List (List Char) → List (List Char)
+  | [] => [[c]]            -- unreachable: a split is never empty
+  | f :: fs => (c :: f) :: fs
+
+/-- Python `s.split(sep)` for a non-empty separator: matches are found left to right and do not
+    overlap; always at least one field.  `skip` counts the characters of a match still to be
+    consumed (structural recursion, as `PgFdr.replaceAux`). -/
+def splitStrAux (sep : List Char) : Nat → List Char → List (List Char)
+  | _, [] => [[]]
+  | skip + 1, _ :: t => splitStrAux sep skip t
+  | 0, c :: t =>
+    if sep ≠ [] ∧ sep.isPrefixOf (c :: t) then [] :: splitStrAux sep (sep.length - 1) t
+    else consHead c (splitStrAux sep 0 t)
+
+def splitStr (sep : String) (s : List Char) : List (List Char) := splitStrAux sep.toList 0 s
+
+/-- Python `pat in s` -/
+def pyIn (pat : String) (s : List Char) : Bool := containsSub pat.toList s
+
+/-- Python `l[i]` where the index is known to exist (every use below is `[0]` of a split, or
+    `[1]` / `[2]` behind an `in` / `count` guard) -/
+def idx (l : List (List Char)) (i : Nat) : List Char := l.getD i []
+
+/-- `digest.parse_until_first_space`: `fasta_id.split(" ")[0]` -/
+def parseIdChar (h : List Char) : List Char := idx (splitStr " " h) 0
+
+/-- `parse_uniprot_id`: `protein_id.split("|")[1] if "|" in protein_id else protein_id` -/
+def parseUniprotIdChar (h : List Char) : List Char :=
+  let pid := parseIdChar h
+  if pyIn "|" pid then idx (splitStr "|" pid) 1 else pid
+
+/-- `parse_entry_name`: `protein_id.split("|")[2] if "|" in protein_id and protein_id.count("|") >= 2
+    else protein_id` -/
+def parseEntryNameChar (h : List Char) : List Char :=
+  let pid := parseIdChar h
+  if pyIn "|" pid && decide (pid.count '|' ≥ 2) then idx (splitStr "|" pid) 2 else pid
+
+/-- `parse_protein_name_func`: `" ".join(fasta_header.split(" OS=")[0].split(" ")[1:])` -/
+def parseDescriptionChar (h : List Char) : List Char :=
+  joinOn ' ' ((splitStr " " (idx (splitStr " OS=" h) 0)).drop 1)
+
+/-- `parse_organism`: `fasta_header.split(" OS=")[1].split(" GN=")[0] if " OS=" in fasta_header else None` -/
+def parseOrganismChar (h : List Char) : Option (List Char) :=
+  if pyIn " OS=" h then some (idx (splitStr " GN=" (idx (splitStr " OS=" h) 1)) 0) else none
+
+/-- `parse_protein_existence_level`: `int(fasta_header.split(" PE=")[1].split(" ")[0]) if " PE=" in
+    fasta_header else None` (`some none` = `int()` raises) -/
+def parseExistenceChar (h : List Char) : Option (Option Nat) :=
+  if pyIn " PE=" h then some (parseNat (idx (splitStr " " (idx (splitStr " PE=" h) 1)) 0)) else none
+
+/-- `parse_gene_name_func`: `fasta_header.split(" GN=")[1].split(" ")[0] if " GN=" in fasta_header else None` -/
+def parseGeneChar (h : List Char) : Option (List Char) :=
+  if pyIn " GN=" h then some (idx (splitStr " " (idx (splitStr " GN=" h) 1)) 0) else none
+
+def applyRuleChar (rule : IdRule) (h : List Char) : Option (List Char) :=
+  match rule with
+  | .full => some (parseIdChar h)
+  | .accession => some (parseUniprotIdChar h)
+  | .gene => parseGeneChar h
+
+/-- one `ProteinAnnotation(...)` of `read_fasta_proteins`, computed by the character-level
+    functions (the driver op `header` runs this one) -/
+def annotateChar (rule : IdRule) (header : List Char) (length : Nat) : Except Err Annotation :=
+  match parseExistenceChar header with
+  | some none => .error .badExistence
+  | ex =>
+    .ok { id := applyRuleChar rule header, header := header, uniprotId := parseUniprotIdChar header,
+          entryName := parseEntryNameChar header, geneName := parseGeneChar header, length := length,
+          organism := parseOrganismChar header, description := parseDescriptionChar header,
+          existence := ex.bind id }
 
 end PgFdr.C19
